@@ -1,0 +1,21 @@
+//go:build verif
+
+package props
+
+import "github.com/Syuparn/pangaea/object"
+
+// VerifMaxAlloc bounds size*count of repeat-style built-ins (0: unlimited). Used only by the verification harness.
+var VerifMaxAlloc int64
+
+func verifAlloc(size, count int64) *object.PanErr {
+	if VerifMaxAlloc <= 0 || count <= 0 {
+		return nil
+	}
+	if size == 0 {
+		size = 1
+	}
+	if count > VerifMaxAlloc/size {
+		return object.NewPanErr("verif: allocation budget exceeded")
+	}
+	return nil
+}
